@@ -28,8 +28,10 @@ class Theme:
     @property
     def config(self) -> str:
         """Get contents of a config file for this theme."""
+        # "%" starts an interpolation in configparser, so it is written as "%%"
         config = "[styles]\n" + "\n".join(
-            f"{name} = {style}" for name, style in sorted(self.styles.items())
+            f"{name} = {style}".replace("%", "%%")
+            for name, style in sorted(self.styles.items())
         )
         return config
 
